@@ -122,6 +122,7 @@ fn main() {
             mon::install_panic_hook(prop);
             install_hooks();
             let thorough = args.str("tier", "quick") == "thorough";
+            scen::D10_LEDGER.store((prop != "C16") as usize, std::sync::atomic::Ordering::SeqCst);
             let out = scen::run_all(&which, args.u64("shard", 0), args.u64("nshards", 1), thorough);
             let j = J::obj()
                 .set("type", "summary")
